@@ -62,7 +62,9 @@ def run():
     try:
         print('--- (1) named deviations must be refuted by TLC')
         for mod, cfg in (('ExtGcd', 'MC_ExtGcd_pinned.cfg'), ('MpiHidden', 'MC_MpiHidden_pinned.cfg'), ('MpiProto', 'MC_MpiProto_pinned.cfg'),
-                         ('Concurrency', 'MC_Concurrency_pinned.cfg'), ('ParFor', 'MC_ParFor_pinned.cfg'), ('BiDijkstra', 'MC_BiDijkstra_pinned.cfg')):
+                         ('Concurrency', 'MC_Concurrency_pinned.cfg'), ('ParFor', 'MC_ParFor_pinned.cfg'), ('BiDijkstra', 'MC_BiDijkstra_pinned.cfg'),
+                         ('HopBfs', 'MC_HopBfs_pinned1.cfg'), ('HopBfs', 'MC_HopBfs_pinned2.cfg'), ('Dijkstra', 'MC_Dijkstra_pinned_stale-distance.cfg'),
+                         ('Dijkstra', 'MC_Dijkstra_pinned_no-decrease.cfg'), ('Dijkstra', 'MC_Dijkstra_pinned_stop-at-first.cfg')):
             ok = expect_violation(mod, cfg) and ok
         print('--- (2) recorded traces: accepted as recorded, rejected when corrupted')
         graphs = [gens.reweight(rng, gens.complete(4), [1, 2, 3]), gens.reweight(rng, gens.wheel(5), [1, 2, 3, 4]), gens.cycle(5, 2)]
